@@ -97,6 +97,9 @@ def gen_history(rng, tier):
         h['reset_spelling'] = rng.choice(['largest', 'end'] if h['reset'] == 'latest' else ['smallest', 'beginning'])
         h.pop('reset_given', None)
     if rng.random() < 0.2:
+        # poll() hands the fetch an error event now and then: not a message, the fetch goes on polling
+        h['error_polls'] = sorted(rng.sample(range(0, 30), rng.choice([1, 2, 3])))
+    if rng.random() < 0.2:
         # some messages have an empty payload (b'') or none at all (a tombstone): they are messages like any other
         h['empty'] = [rng.choice([0.15, 0.3, 0.6]), rng.randrange(1000), rng.choice(['b', 'none', 'mix'])]
     h['pre_holes'] = [[int(rng.random() < h['hole_rate']) for _ in range(n)] for n in h['pre']]
@@ -388,6 +391,8 @@ def check_history(h, crash_at, counters, sets):
         broker.n_committed = 0
         broker.fetch_failures = set(h.get('fetch_failures', ()))
         broker.n_assign = 0
+        broker.error_polls = set(h.get('error_polls', ()))
+        broker.n_fetch_polls = 0
         broker.wm_fail_at = set(h.get('wm_fail_at', ()))
         broker.n_wm = 0
         inc = run_incarnation(broker, h, crash, preload=(k == 1))
